@@ -668,9 +668,9 @@ fn apply_drop_shadow(
         *p = color.premultiply().to_color_u8();
     }
 
-    match cs {
-        usvg::filter::ColorInterpolation::SRGB => shadow_pixmap.into_srgb(),
-        usvg::filter::ColorInterpolation::LinearRGB => shadow_pixmap.into_linear_rgb(),
+    // The flood color is in sRGB, like the one of `feFlood`.
+    if cs == usvg::filter::ColorInterpolation::LinearRGB {
+        shadow_pixmap.into_linear_rgb();
     }
 
     // A shadow that is moved by at least the image size is completely outside of the image.
